@@ -417,6 +417,22 @@ def m_ledgers(hist, rec):
         if own_d + g.swept != want_d:
             report(hist, "C02", "N2_solvency", {"eq": "N2"},
                    "contract holds %d staked asset (+swept %d), owes %d" % (own_d, g.swept, want_d), rec)
+        # J (the `JInv` of MW/Inv/WorldPayable.lean on the implementation's answers): per Received batch, what has been
+        # paid out plus what the still-open requests are entitled to never exceeds what was received for it -- a payout
+        # larger than its share is paid with tokens that back somebody else's claim
+        open_claims = {}
+        for u_, rq_ in a["contract"]["requests"].items():
+            for x_ in (rq_.get("ok") or []):
+                open_claims.setdefault(x_["batch_id"], []).append(int(x_["amount"]))
+        for x in batches(a):
+            if x["status"] != "received" or int(x["batch_total_liquid_stake"]) == 0:
+                continue
+            R_, T_ = int(x["received_native_unstaked"]), int(x["batch_total_liquid_stake"])
+            due_ = sum(R_ * am // T_ for am in open_claims.get(x["id"], []))
+            if g.paid.get(x["id"], 0) + due_ > R_:
+                report(hist, "C02", "claims_covered", {"eq": "J"},
+                       "batch %d received %d; %d was paid out and the open requests are entitled to %d more" % (
+                           x["id"], R_, g.paid.get(x["id"], 0), due_), rec)
         # F1: everything ever forwarded toward the staker is in flight to it, delivered to it, or
         # refunded and still earmarked for it (C01 "located")
         stakers = getattr(hist, "stakers", None)
@@ -561,6 +577,12 @@ def m_auth(hist, rec):
     hist.monitor_list = mons
     if ok and var == "circuit_breaker" and c["sender"] != admin and (c["sender"] not in cfg(b)["monitors"] or c["sender"] not in mons):
         report(hist, "C08", "breaker_auth", {"variant": var}, "circuit breaker by %s, who is neither the admin nor a monitor (monitors configured: %s)" % (c["sender"], mons), rec)
+    # C10 "halting by the admin or any monitor": a CircuitBreaker from the admin or from an account on the monitor list (by
+    # the contract's own record and by the history of accepted updates alike) is not refused
+    if var == "circuit_breaker" and c["outcome"] == "err" and not c["funds"] and (
+            c["sender"] == admin or (c["sender"] in cfg(b)["monitors"] and c["sender"] in mons)):
+        report(hist, "C10", "breaker_available", {"who": "admin" if c["sender"] == admin else "monitor"},
+               "CircuitBreaker by %s (%s) was refused: %s" % (c["sender"], "the admin" if c["sender"] == admin else "a configured monitor", c["kind"]), rec)
     nominated = getattr(hist, "last_nomination", None)      # by the history, not by the contract's own record
     if ok and var == "accept_ownership" and (c["sender"] != b["contract"]["pending_owner"] or nominated is None or nominated[1] != c["sender"]):
         report(hist, "C08", "accept_auth", {"variant": var},
@@ -740,8 +762,9 @@ def m_flags(hist, rec):
             if tr and tr[0]["coin"]["amount"] != sum(by[x] for x in set(sel)):
                 report(hist, "C07", "recover_once", {"branch": "forced_duplicate"},
                        "forced recovery with a repeated id re-sends %d instead of %d" % (tr[0]["coin"]["amount"], sum(by[x] for x in set(sel))), rec)
-        if set(sel) & sent or len(set(sel)) != len(sel):
-            hist.forced_used = True
+        if set(sel) & sent:
+            hist.forced_used = True       # a packet still in flight was re-sent: the coupling with the chain's packets is void
+        # (an id named twice is harmless: the contract re-sends each selected packet once, `forced_ids_once`)
     # the operator re-routed the channel or changed the staked-asset denom: callbacks of packets sent
     # before are ignored by the contract from then on, so the ledger equations (which assume the
     # honest-operator clause "routing is stable") are not evaluated for the rest of the history --
